@@ -16,6 +16,8 @@ tlbparsers_tx.py and only adds:
               <S.load_ref().begin_parse()>.load_hashmap(N, key_deserializer=lambda src: Builder().store_bits(src).to_slice().load_int(N),
                    value_deserializer=lambda src: src.load_ref().begin_parse())
                                                                     -> Rd.loadHashmapS N Rd.refSlice (signed keys, Slice values)
+              MerkleUpdate.deserialize(S.load_ref(), T.deserialize)  (tlb/utils.py, text PINNED) -> the reference is consumed,
+                   Rd.merkleUpdateOrd: `None` for an ordinary cell; exotic cells are outside the model (refused)
               deserialize_shard_hashes(S)   (tlb/utils.py; its text and BinTree.deserialize are PINNED: a hand model)
                                                                     -> Rd.loadShardHashes ShardDescr S
   returns     `return S.load_hashmap_aug_e(…)` : the parser returns the tuple itself (ShardAccounts, OldMcBlocksInfo)
@@ -46,7 +48,7 @@ BASE = {
     'BlkMasterInfo': 'Src.BlkMasterInfo', 'ExtBlkRef': 'Src.ExtBlkRef', 'ValidatorInfo': 'Src.ValidatorInfo',
     'CreatorStats': 'Src.CreatorStats', 'KeyExtBlkRef': 'Src.KeyExtBlkRef', 'KeyMaxLt': 'Src.KeyMaxLt',
     'CurrencyCollection': 'SrcTx.CurrencyCollection', 'ExtraCurrencyCollection': 'SrcTx.ExtraCurrencyCollection',
-    'ImportFees': 'SrcTx.ImportFees',
+    'ImportFees': 'SrcTx.ImportFees', 'BlockInfo': 'Src.BlockInfo',
 }
 
 # (python file, class) in dependency order
@@ -57,7 +59,7 @@ CLASSES = [
     ('block', 'ShardAccounts'), ('block', 'OldMcBlocksInfo'), ('block', 'BlockCreateStats'),
     ('block', 'ConfigParams'), ('block', 'McStateExtra'), ('block', 'ShardStateUnsplit'),
     ('block', 'McBlockExtra'), ('block', 'ShardState'),
-    ('account', 'AccountBlock'), ('block', 'BlockExtra'),
+    ('account', 'AccountBlock'), ('block', 'BlockExtra'), ('block', 'Block'),
 ]
 
 ERASED_KW = {('ShardAccount', 'cell')}
@@ -79,12 +81,20 @@ PINNED = {
         "cls.deserialize(cell_slice.load_ref().begin_parse()).list)\n    else:\n        return cls([cell_slice])",
     ('block', 'BinTree', '__init__'): "def __init__(self, list_: list):\n    self.list = list_",
 }
+PINNED_MERKLE = {
+    ('utils', 'MerkleUpdate', 'deserialize'):
+        "@classmethod\ndef deserialize(cls, cell: Cell, deserializer: typing.Callable) -> typing.Optional['MerkleUpdate']:\n"
+        "    if cell.type_ != CellTypes.merkle_update:\n        return None\n    cell_slice = cell.begin_parse()\n"
+        "    tag = cell_slice.load_bytes(1)[:1]\n    old_hash = cell_slice.load_bytes(32)\n    new_hash = cell_slice.load_bytes(32)\n"
+        "    old = deserializer(cell_slice.load_ref().begin_parse())\n    new = deserializer(cell_slice.load_ref().begin_parse())\n"
+        "    return cls(cell, old_hash, new_hash, old, new)",
+}
 KEY_SIGNED = 'lambda src: Builder().store_bits(src).to_slice().load_int({n})'
 VAL_REFSLICE = 'lambda src: src.load_ref().begin_parse()'
 
 
-def check_pinned(tr):
-    for (mod, cls, name), text in PINNED.items():
+def check_pinned(tr, table=None):
+    for (mod, cls, name), text in (PINNED if table is None else table).items():
         tree = tr.module(mod)
         body = tree.body
         if cls is not None:
@@ -96,7 +106,7 @@ def check_pinned(tr):
         fn = copy.deepcopy(fn[0])
         fn.body = [x for x in fn.body if not (isinstance(x, ast.Expr) and isinstance(x.value, ast.Constant))]
         if ast.unparse(fn) != text:
-            raise Untranslatable(f'{cls or mod}.{name} is hand-modelled (Rd.loadShardHashes) and its text changed')
+            raise Untranslatable(f'{cls or mod}.{name} is hand-modelled and its text changed')
 
 
 class FnBlk(TX.FnTx):
@@ -125,6 +135,13 @@ class FnBlk(TX.FnTx):
     def call(self, e, env, out):
         ctx = self.ctx
         f = e.func
+        if (isinstance(f, ast.Attribute) and f.attr == 'deserialize' and isinstance(f.value, ast.Name) and f.value.id == 'MerkleUpdate'
+                and len(e.args) == 2 and not e.keywords and isinstance(e.args[1], ast.Attribute) and e.args[1].attr == 'deserialize'):
+            check_pinned(ctx.tr, PINNED_MERKLE)
+            c = self.cell_of(e.args[0], env, out)
+            t = ctx.fresh()
+            out.append(f'let {t} ← Rd.merkleUpdateOrd {c.var}')
+            return V(t, 'val')
         if isinstance(f, ast.Name) and f.id == '__presence__':
             return V(f'(Rd.presence {self.expr(e.args[0], env, out).lean})', 'val')
         if isinstance(f, ast.Name) and f.id == 'deserialize_shard_hashes' and len(e.args) == 1 and not e.keywords \
